@@ -625,7 +625,8 @@ func (router *Router) processOTLPRequest(
 	// get environment name - will be empty for legacy keys
 	environment, err := router.getEnvironmentName(apiKey)
 	if err != nil {
-		return nil
+		// nothing has been processed: the caller must not report success
+		return err
 	}
 	totalEvents := 0
 	for _, batch := range batches {
@@ -665,7 +666,8 @@ func (router *Router) processOTLPRequestBatchMsgp(
 	// get environment name - will be empty for legacy keys
 	environment, err := router.getEnvironmentName(apiKey)
 	if err != nil {
-		return nil
+		// nothing has been processed: the caller must not report success
+		return err
 	}
 	totalEvents := 0
 	for _, batch := range batches {
